@@ -520,6 +520,8 @@ def compare(I, op, a, b):
         if isinstance(op, ast.Eq):
             return r
         return (not r) if isinstance(r, bool) else sp.Not(r)
+    if isinstance(a, bool) and (isinstance(b, bool) or _alg(b)) or isinstance(b, bool) and _alg(a):
+        a, b = (sp.Integer(int(a)) if isinstance(a, bool) else a), (sp.Integer(int(b)) if isinstance(b, bool) else b)      # bool is an int
     if not (_alg(a) and _alg(b)):
         if isinstance(a, str) and isinstance(b, str):
             return {ast.Lt: a < b, ast.Gt: a > b, ast.LtE: a <= b, ast.GtE: a >= b}[type(op)]
@@ -2154,7 +2156,9 @@ def _as_dtype(I, v, dtype, copy):
             kind = "float"
         elif nm in ("complex", "complex128", "complex64", "c16", "c8", "object", "o", "bool", "str"):
             kind = None if nm.startswith(("complex", "c")) else nm
-            if kind in ("object", "o", "bool", "str"):
+            if kind == "bool":
+                pass
+            elif kind in ("object", "o", "str"):
                 raise AnalysisError(f"numpy dtype {nm} is not modelled")
         else:
             raise AnalysisError(f"numpy dtype {nm} is not modelled")
@@ -2167,6 +2171,15 @@ def _as_dtype(I, v, dtype, copy):
             return Vec(items, x.col)
         if x is None and kind == "float":
             return sp.nan               # numpy stores None as NaN in a float array
+        if kind == "bool":
+            if isinstance(x, bool) or x in (sp.true, sp.false):
+                return bool(x)
+            if x is None:
+                return False
+            if _alg(x):
+                r_ = sp.Ne(to_expr(x), 0)
+                return bool(r_) if r_ in (sp.true, sp.false) else r_
+            return x
         if kind is None or not _alg(x):
             return x
         e = to_expr(x)
@@ -2399,11 +2412,23 @@ def _math(I, name):
 
             def num(v):
                 return _alg(v) and (to_expr(v).is_number or to_expr(v) is sp.nan)
-            if num(x) and to_expr(x) is not sp.nan and isinstance(xp, Vec) and isinstance(fp, Vec) and len(xp) == len(fp) and len(xp) >= 1 \
+            scaled = None
+            if _alg(x) and not num(x) and isinstance(xp, Vec) and isinstance(fp, Vec) and len(xp) == len(fp) and len(xp) >= 1 \
+                    and all(_alg(i) for i in xp.items) and all(_alg(i) for i in fp.items) and all(v is None or _alg(v) for v in (left, right)):
+                # abscissae that are concrete multiples of one positive symbolic unit (a table in symbolic physical constants):
+                # the order of x and the nodes is that of the multiples
+                base_ = to_expr(xp.items[0])
+                if base_.is_positive:
+                    ratios = [sp.simplify(to_expr(v) / base_) for v in [x] + list(xp.items)]
+                    if all(r_.is_number and r_.is_real for r_ in ratios):
+                        scaled = ratios
+            if scaled is not None or num(x) and to_expr(x) is not sp.nan and isinstance(xp, Vec) and isinstance(fp, Vec) and len(xp) == len(fp) and len(xp) >= 1 \
                     and all(num(i) and to_expr(i).is_real for i in xp.items) and all(num(i) for i in fp.items) \
                     and all(v is None or num(v) for v in (left, right)):
                 # a concrete table and a concrete abscissa: numpy's piecewise-linear interpolant, exactly
                 xv, xs_, fs_ = to_expr(x), [to_expr(i) for i in xp.items], [to_expr(i) for i in fp.items]
+                if scaled is not None:
+                    xv, xs_ = scaled[0], scaled[1:]
                 if not all(a_ < b_ for a_, b_ in zip(xs_, xs_[1:])):
                     raise AnalysisError("numpy.interp on a table whose abscissae are not increasing")
                 if xv < xs_[0]:
